@@ -131,13 +131,94 @@ def ensure_makefile():
             raise RuntimeError('coq_makefile failed: ' + out)
 
 
+def direct_deps(vrel):
+    txt = strip_comments(open(os.path.join(COQ, vrel)).read())
+    out = []
+    for m in re.finditer(r'\b((?:SCMO\.)?(?:Lib|Gen|Model|Proofs|Props)\.[A-Za-z0-9_]+)\b', txt):
+        name = m.group(1)
+        if name.startswith('SCMO.'):
+            name = name[5:]
+        f = name.replace('.', '/') + '.v'
+        if f != vrel and f not in out:
+            out.append(f)
+    return out
+
+
 def coq_make(targets, timeout=1500):
-    """full .vo build of the given targets (never -vos/-vok)."""
+    """Full .vo build (plain coqc, never -vos/-vok) of the given .vo/.v targets and everything they
+    depend on inside SCMO, in dependency order, content-hash incremental, parallel per level.
+    (A _CoqProject for coq_makefile is also written by setup; this builder is used by the checks
+    because it is insensitive to unrelated files being edited concurrently.)"""
+    from concurrent.futures import ThreadPoolExecutor
+    vfiles = [t[:-3] + '.v' if t.endswith('.vo') else t for t in targets if not t.startswith('-')]
+    if 'all' in vfiles:
+        vfiles = coq_files()
     with BuildLock():
-        ensure_makefile()
-        rc, out = sh('timeout %d make -j%d %s' % (timeout, NPROC, ' '.join(targets)), cwd=COQ,
-                     timeout=timeout + 30)
-    return rc == 0, out
+        deps, missing = {}, []
+        todo = list(vfiles)
+        while todo:
+            f = todo.pop()
+            if f in deps:
+                continue
+            if not os.path.exists(os.path.join(COQ, f)):
+                missing.append(f)
+                deps[f] = []
+                continue
+            deps[f] = direct_deps(f)
+            todo += deps[f]
+        if missing:
+            return False, 'Error: missing Coq source file(s): %s (a Gen file is missing when the translator refused the source)' % missing
+        level = {}
+
+        def lv(f, stack=()):
+            if f in level:
+                return level[f]
+            if f in stack:
+                raise RuntimeError('dependency cycle at ' + f)
+            level[f] = 1 + max([lv(d, stack + (f,)) for d in deps[f]] or [0])
+            return level[f]
+        for f in deps:
+            lv(f)
+        stamps = {}
+        sdir = os.path.join(BUILD, 'stamps')
+        os.makedirs(sdir, exist_ok=True)
+        log = []
+        t_end = time.time() + timeout
+
+        def stamp_of(f):
+            h = hashlib.sha256(open(os.path.join(COQ, f), 'rb').read())
+            for d in sorted(deps[f]):
+                h.update(stamps[d].encode())
+            return h.hexdigest()
+
+        def build_one(f):
+            sp = os.path.join(sdir, f.replace('/', '__') + '.stamp')
+            vo = os.path.join(COQ, f[:-2] + '.vo')
+            if os.path.exists(vo) and os.path.exists(sp) and open(sp).read() == stamps[f]:
+                return True, ''
+            if os.path.exists(sp):
+                os.remove(sp)
+            rc, out = sh('timeout %d coqc -Q . SCMO %s' % (max(10, int(t_end - time.time())), f), cwd=COQ,
+                         timeout=max(20, int(t_end - time.time()) + 10))
+            if rc == 0:
+                with open(sp, 'w') as fh:
+                    fh.write(stamps[f])
+                return True, out
+            if os.path.exists(vo):
+                os.remove(vo)
+            return False, out
+        for L in sorted(set(level.values())):
+            fs = sorted(f for f in deps if level[f] == L)
+            for f in fs:
+                stamps[f] = stamp_of(f)
+            with ThreadPoolExecutor(max_workers=NPROC) as ex:
+                results = list(ex.map(build_one, fs))
+            for f, (ok, out) in zip(fs, results):
+                if not ok:
+                    log.append(out)
+            if log:
+                return False, '\n'.join(log)
+    return True, ''
 
 
 def coqc_capture(vfile, timeout=900):
@@ -385,6 +466,11 @@ class PropBase:
 
     def matches(self, finding, witness):
         return finding.get('key') == witness.get('key')
+
+    def replay(self, data):
+        """default replay: show the recorded witness and re-run the whole check on the current tree"""
+        print(json.dumps(data.get('witness', data.get('no_longer_checks')), indent=1, default=str)[:4000])
+        return self.run()
 
     # -- driver
     def run(self):
